@@ -309,6 +309,7 @@ pub fn run(r: &Report) {
                     Address::p2shwsh(&script, *b, NETS[net]),
                     Address::p2tr(s, xonly, None, *b, NETS[net]),
                     Address::p2tr(s, xonly, Some(elements::taproot::TapNodeHash::from_byte_array(pat32(1))), *b, NETS[net]),
+                    Address::p2tr_tweaked(elements::schnorr::TweakedPublicKey::new(xonly), *b, NETS[net]),
                 ];
                 for a in list {
                     let payload = match &a.payload {
